@@ -138,6 +138,7 @@ func (e *Engine) checkProperty(verif, prop, tier string, t0 time.Time) int {
 	var knownOut []string
 	var violationLines []string
 	candTotal, candKept := 0, 0
+	covers, coversOK := 0, 0
 	report := func(obName, unit, status, detail, model, pos string) {
 		// known finding?
 		for _, f := range findings {
@@ -189,6 +190,13 @@ func (e *Engine) checkProperty(verif, prop, tier string, t0 time.Time) int {
 			notes[n] = true
 		}
 		candTotal += len(r.VC.cands)
+		covers++
+		if r.VC.coverSt == "unsat" {
+			total++
+			report("vacuity["+r.Name+"]", r.Name, "vacuous", "the hypotheses of "+r.Name+" (requires, assumed contracts, invariants) are contradictory: no return is reachable", "", "-")
+		} else {
+			coversOK++
+		}
 		for _, o := range r.VC.obligs {
 			if o.Cand >= 0 {
 				continue
@@ -249,6 +257,7 @@ func (e *Engine) checkProperty(verif, prop, tier string, t0 time.Time) int {
 		"bounded_standins":         p.Bounded,
 		"not_decided":              p.NotDecided,
 		"houdini_candidates":       candTotal,
+		"vacuity":                  map[string]int{"cover_checks": covers, "passed": coversOK},
 		"samples":                  samples,
 		"claim":                    p.Claim,
 	}
